@@ -66,6 +66,26 @@ func WorkerMain(t Target) {
 	case "replay":
 		Isolate = !*sameProc
 		os.Exit(replayFile(t, *file, *retries))
+	case "dumpworlds":
+		// development aid: materialise generated worlds for differential runs of real binaries
+		for i := 0; i < *to; i++ {
+			src := choice.New(choice.Mix(*seed, uint64(i)))
+			w := GenWorld(src, WOpts{Defects: src.Bool("d"), Flags: true, Fake: true, KeyPerm: true, DotPkg: src.Chance("dot", 1, 8), Big: src.Chance("big", 1, 4)})
+			dir := filepath.Join(*out, fmt.Sprintf("w%04d", i))
+			for _, f := range w.Files {
+				_ = os.MkdirAll(filepath.Join(dir, filepath.Dir(f.Path)), 0755)
+				_ = os.WriteFile(filepath.Join(dir, f.Path), []byte(f.Content), 0644)
+			}
+			args := []string{"build"}
+			for _, p := range w.Patterns {
+				args = append(args, "-i", p)
+			}
+			args = append(args, "-o", "OUT.go")
+			args = append(args, w.Flags...)
+			b, _ := json.Marshal(args)
+			_ = os.WriteFile(filepath.Join(dir, "args.json"), b, 0644)
+		}
+		os.Exit(0)
 	case "exec1":
 		Exec1(t)
 		os.Exit(0)
